@@ -73,6 +73,7 @@ type c07Scn struct {
 	racyLoss bool    // the connection is lost at the last check time WITHOUT waiting for quiescence
 	hook     bool    // Hook rewrites the request address
 	fDial    bool    // UDP() may fail (choice point)
+	fSlow    bool    // UDP() may take longer than the idle timeout (choice point): a slow dial
 	fWrite   bool    // socket WriteTo may fail (choice point)
 	fSend    bool    // SendMessage may fail / report DatagramTooLarge (choice point)
 	quick    explore.Bounds
@@ -163,6 +164,7 @@ type c07World struct {
 	e  *vsched.Exec
 	sc *c07Scn
 	m  *udpSessionManager
+	dialing int // slow dials in flight (virtual sleeps inside UDP())
 
 	seq     int
 	queue   []*c07DgRec
@@ -320,6 +322,14 @@ func (io *c07IO) UDP(reqAddr string) (UDPConn, error) {
 	if d == nil {
 		w.e.Fail("C07 harness: UDP() called outside the processing of any datagram")
 		return nil, c07ErrDial
+	}
+	if w.sc.fSlow && w.e.Choose(2, vsched.KEnv, "slow-dial") == 1 {
+		// the dial blocks for longer than idle timeout + one sweep interval (virtual time): the
+		// sweeper runs while the session's first dial is still in flight
+		w.logf("dial s%d %s SLOW", d.id, reqAddr)
+		w.dialing++
+		w.e.Sleep(c07Timeout + 3*int64(time.Second)/2)
+		w.dialing--
 	}
 	if w.sc.fDial && w.e.Choose(2, vsched.KEnv, "dial") == 1 {
 		d.dialFlt = true
@@ -880,13 +890,14 @@ func (sc *c07Scn) body(e *vsched.Exec) {
 		if i == len(sc.checks)-1 && sc.racyLoss {
 			break
 		}
+		e.Point("env", func() bool { return w.dialing == 0 }, "c07.wait-slow-dial")
 		e.WaitIdle()
 		w.quiescent(false)
 	}
 	w.lost = true
 	w.stop = true
 	w.logf("LOSS")
-	e.Point("env", func() bool { return w.envLeft == 0 }, "c07.join-env")
+	e.Point("env", func() bool { return w.envLeft == 0 && w.dialing == 0 }, "c07.join-env")
 	e.WaitIdle()
 	w.final()
 }
@@ -984,6 +995,11 @@ func c07Scenarios() []*c07Scn {
 		{name: "faults", quick: q, thorough: t2, twin: td, fDial: true, fWrite: true, fSend: true,
 			envs:   [][]c07Step{{c07Dg(1, "x:1"), c07Dg(1, "y:2"), c07Rp(1)}},
 			checks: []int64{s / 2}},
+		// a dial that outlasts the idle timeout: the sweeper meets a session whose socket does not
+		// exist yet (added after the independently seeded change C07-1 was missed)
+		{name: "slow-dial-races-sweep", quick: q, thorough: t, fSlow: true,
+			envs:   [][]c07Step{{c07Dg(1, "x:1"), c07Sl(c07Timeout + 2*s), c07Dg(1, "x:1")}},
+			checks: []int64{9 * s}},
 		// Hook rewrites the address: writes go to the rewritten address, replies carry the original one
 		{name: "hook-rewrite", quick: q, thorough: t, hook: true, fSend: true,
 			envs:   [][]c07Step{{c07Dg(1, "x:1"), c07Rp(1), c07Dg(1, "y:2")}},
